@@ -1,4 +1,5 @@
 import Ruint.Model.Div
+import Ruint.Gen.WordsDiv
 /-! Driver for C14: evaluates the model (`Ruint.Div.*` on limb lists) and the spec (`Nat` `/`, `%`).
 
 Case lines (`op len args…`; the second token is only a histogram key):
@@ -7,6 +8,8 @@ Case lines (`op len args…`; the second token is only a histogram key):
 * `nx1n|nx1 n limbs d` · `nx2n|nx2 n limbs d`     → `limbs' r`
 * `nxm n num ds` · `div n num ds`                 → `num' ds'` | `panic`
 * `nxmn n num ds`                                 → `num'` | `panic`
+* `g_recip`, `g_recip2`, `g_d2x1`, `g_d3x2`: same inputs; the model column is the definition GENERATED from the
+  Rust source by tools/rs2lean.py (`Ruint.Gen.reciprocal_mg10` …), which validates the translator and its prelude.
 -/
 open Ruint Ruint.Div
 
@@ -25,12 +28,17 @@ def handle (args : List String) (_impl : String) : String × String :=
     match op with
     | "recip" => (toHex (reciprocal d), toHex ((2 ^ 128 - 1) / d - 2 ^ 64))
     | "recip2" => (toHex (reciprocal2 d), toHex ((2 ^ 192 - 1) / d - 2 ^ 64))
+    | "g_recip" => (toHex (Ruint.Gen.reciprocal_mg10 d), toHex ((2 ^ 128 - 1) / d - 2 ^ 64))
+    | "g_recip2" => (toHex (Ruint.Gen.reciprocal_2_mg10 d), toHex ((2 ^ 192 - 1) / d - 2 ^ 64))
     | _ => ("bad-op", "bad-op")
   | [op, _, a, b] =>
     match op with
     | "d2x1" =>
       let u := parseHex a; let d := parseHex b
       (pairStr (div2x1w u d (reciprocal d)), pairStr (u / d, u % d))
+    | "g_d2x1" =>
+      let u := parseHex a; let d := parseHex b
+      (pairStr (Ruint.Gen.div_2x1_mg10 u d (Ruint.Gen.reciprocal_mg10 d)), pairStr (u / d, u % d))
     | "nx1n" | "nx1" | "nx2n" | "nx2" =>
       let l := parseLimbs a; let d := parseHex b
       let n := Ruint.val l
@@ -73,6 +81,10 @@ def handle (args : List String) (_impl : String) : String × String :=
     | "d3x2" =>
       let u21 := parseHex a; let u0 := parseHex b; let d := parseHex c
       (pairStr (div3x2w u21 u0 d (reciprocal2 d)), pairStr ((u21 * 2 ^ 64 + u0) / d, (u21 * 2 ^ 64 + u0) % d))
+    | "g_d3x2" =>
+      let u21 := parseHex a; let u0 := parseHex b; let d := parseHex c
+      (pairStr (Ruint.Gen.div_3x2_mg10 u21 u0 d (Ruint.Gen.reciprocal_2_mg10 d)),
+       pairStr ((u21 * 2 ^ 64 + u0) / d, (u21 * 2 ^ 64 + u0) % d))
     | _ => ("bad-op", "bad-op")
   | _ => ("bad-op", "bad-op")
 
